@@ -31,14 +31,18 @@ def run():
              f"non-terminals with overlapping FIRST sets x 5x5 definitions of X, Y ({'10 %' if quick else '70 %'}); "
              f"nested3 = 3 terminals, E -> a beta_i, 3-4 remainders from a prefix-closed pool "
              f"({'3 %' if quick else '25 %'}); random = {2000 if quick else 20000} seeded grammars with <= 4 "
-             "non-terminals, <= 4 alternatives, <= 4 symbols, biased to shared prefixes and empty alternatives. "
+             "non-terminals, <= 4 alternatives, <= 4 symbols, biased to shared prefixes and empty alternatives; "
+             "seq = Q = ProdSequence(a | a,b | a,Z), E -> 2-3 ordered alternatives from a pool of 12 that use Q (or "
+             "Y -> Q b | Q) behind 0-2 leading symbols and before different terminators, so that Q is matched, rolled "
+             f"back and parsed again at a later token ({'15 %' if quick else '60 %'}). "
              "evaluations = grammars + parse calls. non-trivial = grammar accepted by the constructor, >= 1 input "
              "returns a tree and >= 1 input is rejected with ParsingError",
         exhaustive=False,
         extra={'per_family': stats, 'diagnostic_counts_by_category': b.notes.get('diag_counts', {})})
     return finish(PROP, 'exploration', b.violations(), [], b.errors, cov,
-                  ["productions are plain tuples / None (no ListProds / MapProds / ProdSequence / AnyTokenExcept "
-                   "templates, which introduce '__' symbols of their own by documented design)",
+                  ["productions are plain tuples / None, plus ProdSequence templates in the 'seq' family (one node whose "
+                   "value is the list of element nodes: flattened for the yield, elements must be symbols of the "
+                   "template); no ListProds / MapProds / AnyTokenExcept templates",
                    "no span_matchers (multi-line span tokens) in the tokenizer configurations",
                    "grammars rejected by the constructor (any exception) and parse calls that raise or exceed "
                    f"{driver.PARSE_BUDGET_S} s CPU are skipped: rejection and termination are C02/C03's business",
